@@ -111,6 +111,9 @@ def _static_truth(c):
                 return False
     if c[0] == "cmp" and c[1] == "==" and is_const(c[2]) and is_const(c[3]):
         return c[2][1] == c[3][1]
+    if c[0] == "cmp" and c[1] in ("<", "<=", ">", ">=") and all(is_const(x) and isinstance(x[1], (int, float)) and not isinstance(x[1], bool) for x in (c[2], c[3])):
+        a, b = c[2][1], c[3][1]
+        return {"<": a < b, "<=": a <= b, ">": a > b, ">=": a >= b}[c[1]]
     return None
 
 
